@@ -440,7 +440,7 @@ func TestVerifC06(t *testing.T) {
 	defer func() { d.Close() }()
 
 	tables := c06Prelude()
-	nRand := out.Scale(1500, 40000)
+	nRand := out.Scale(1000, 12000)
 	for i := 0; i < nRand; i++ {
 		tables = append(tables, c06RandTable(rnd.Fork(uint64(i))))
 	}
